@@ -463,7 +463,47 @@ def count_lookup(F, rep, rid="C15-R12"):
         raise AnalysisBroken("%s: only %d grid classes with count-normalised output and input found" % (rid, n))
 
 
+def delegated_members(F, rep, rid="C15-R13"):
+    rep.rule(rid, "a function that is handed values answers about those values: where an overload without parameters only forwards "
+                  "members of the object to an overload of the same name with parameters (`f() { return f(m1, m2); }`), the "
+                  "overload with parameters does not read those members itself -- a grid asks about ITS boundaries, which a "
+                  "`grid { ... }` block may have set to other values than the variable's")
+    n = 0
+    by = {}
+    for f in F.funcs.values():
+        if "/src/" in f.file and f.body is not None and f.cls:
+            by.setdefault((f.cls, f.name), []).append(f)
+    for (cls, name), fs in sorted(by.items()):
+        short = [f for f in fs if not f.params]
+        longs = [f for f in fs if f.params]
+        if not short or not longs:
+            continue
+        for f0 in short:
+            for c in X.calls(f0):
+                if X.callee_name(c) != name or not X.call_args(c):
+                    continue
+                tgt = F.funcs.get(c.get("callee"))
+                if tgt is None or tgt not in longs or not tgt.const:
+                    continue   # only queries (const members): a setter may store its parameters and then use the members
+                passed = []
+                for a in X.call_args(c):
+                    sa = X.strip(a)
+                    if sa["k"] == "MemberExpr" and sa.get("dk") == "Field" and X.kids(sa) and X.strip(X.kids(sa)[0])["k"] == "CXXThisExpr":
+                        passed.append(sa["q"])
+                if not passed:
+                    continue
+                n += 1
+                read = sorted({y["q"] for y in tgt.walk() if y["k"] == "MemberExpr" and y.get("dk") == "Field" and y.get("q") in passed})
+                rep.add(rid, "%s::%s" % (cls, name), tgt.loc(), "%s::%s(%d parameters) is called by the parameterless overload with %s and %s" % (
+                    cls, name, len(tgt.params), [q.split("::")[-1] for q in passed], "reads none of them directly" if not read else
+                    "reads `%s` directly instead of its parameter" % read[0].split("::")[-1]), not read,
+                    detail="callers that pass other values (a grid with its own boundaries) get the answer for the object's members", func=tgt.q)
+    if n < 1:
+        raise AnalysisBroken("%s: no parameterless overload forwarding members found (colvar::periodic_boundaries expected)" % rid)
+
+
 def run(F, rep, tier):
+    delegated_members(F, rep)
     count_lookup(F, rep)
     from .rules_c19 import named_output
     named_output(F, rep, "C15-R11")
